@@ -61,7 +61,7 @@ def run_one(job):
 
 
 def main():
-    args = [a for a in sys.argv[1:] if not a.startswith("--")]
+    args = [a for a in sys.argv[1:] if a.startswith("C")]
     limit = int(sys.argv[sys.argv.index("--limit") + 1]) if "--limit" in sys.argv else None
     pids = args or [f"C{i:02d}" for i in range(1, 21)]
     tab = names.table()
